@@ -369,3 +369,68 @@ func MaxSeverity(reports []reporter.Report) checks.Severity {
 	}
 	return m
 }
+
+// ---------------------------------------------------------------------------
+// Tagged problems: every problem together with the entry index and the
+// check instance (String()) that produced it.  No Summary de-duplication.
+
+type TaggedProblem struct {
+	Entry    int      `json:"entry"`
+	Rule     string   `json:"rule"`
+	Reporter string   `json:"reporter"`
+	Check    string   `json:"check"`
+	Online   bool     `json:"online"`
+	Summary  string   `json:"summary"`
+	Severity string   `json:"severity"`
+	First    int      `json:"first"`
+	Last     int      `json:"last"`
+	Diags    []string `json:"diags"`
+}
+
+func (p TaggedProblem) Key() string {
+	return fmt.Sprintf("e%d|%s|%s|%s|%s|%s|%d-%d|%s", p.Entry, p.Rule, p.Reporter, p.Check, p.Summary, p.Severity, p.First, p.Last, strings.Join(p.Diags, "¦"))
+}
+
+// Tagged runs the checks GetChecksForEntry selects for every entry (serially,
+// same context values as checkRules) and returns the problems with their origin.
+// dir is stripped from messages.
+func Tagged(cfg config.Config, entries []discovery.Entry, opt Options, dir string) (out []TaggedProblem) {
+	cmd := opt.Command
+	if cmd == "" {
+		cmd = config.LintCommand
+	}
+	ctx := context.WithValue(context.Background(), config.CommandKey, cmd)
+	gen := config.NewPrometheusGenerator(cfg, prometheus.NewRegistry())
+	defer gen.Stop()
+	if err := gen.GenerateStatic(); err != nil {
+		panic(fmt.Sprintf("GenerateStatic: %v", err))
+	}
+	ctx = context.WithValue(ctx, promapi.AllPrometheusServers, gen.Servers())
+	for _, s := range cfg.Check {
+		settings, _ := s.Decode()
+		ctx = context.WithValue(ctx, checks.SettingsKey(s.Name), settings)
+	}
+	for i, entry := range entries {
+		if (entry.PathError != nil || entry.Rule.Error.Err != nil) && entry.State == discovery.Removed {
+			continue
+		}
+		for _, check := range cfg.GetChecksForEntry(ctx, gen, entry) {
+			for _, p := range check.Check(ctx, entry, entries) {
+				tp := TaggedProblem{
+					Entry: i, Rule: entry.Rule.Name(), Reporter: p.Reporter, Check: check.String(), Online: check.Meta().Online,
+					Summary: p.Summary, Severity: p.Severity.String(), First: p.Lines.First, Last: p.Lines.Last,
+				}
+				for _, d := range p.Diagnostics {
+					msg := d.Message
+					if dir != "" {
+						msg = strings.ReplaceAll(msg, dir, "<dir>")
+					}
+					tp.Diags = append(tp.Diags, fmt.Sprintf("%d:%d:%s", d.FirstColumn, d.LastColumn, hexAddr.ReplaceAllString(msg, "0x?")))
+				}
+				sort.Strings(tp.Diags)
+				out = append(out, tp)
+			}
+		}
+	}
+	return out
+}
